@@ -64,7 +64,8 @@ DecFrom(b, i, acc) ==
   IF i > Len(b) THEN [chars |-> acc, carry |-> <<>>]
   ELSE LET n == Need(b[i]) IN
        IF i + n - 1 > Len(b) THEN [chars |-> acc, carry |-> SubSeq(b, i, Len(b))]
-       ELSE DecFrom(b, i + n, Append(acc, CodePoint(SubSeq(b, i, i + n - 1))))
+       ELSE LET a == Append(acc, CodePoint(SubSeq(b, i, i + n - 1))) IN
+            IF Len(a) > 0 THEN DecFrom(b, i + n, a) ELSE a
 DecodeChunk(carry, chunk) == DecFrom(carry \o chunk, 1, <<>>)
 
 \* (2) whole stream: one code point per lead-byte position
@@ -162,7 +163,12 @@ FeedChar(mode, s, c) ==
   ELSE [s EXCEPT !.pcr = FALSE, !.ln = Append(@, c)]
 
 RECURSIVE FeedAll(_, _, _)
-FeedAll(mode, s, cs) == IF cs = <<>> THEN s ELSE FeedAll(mode, FeedChar(mode, s, cs[1]), Tail(cs))
+\* (TLC passes arguments lazily: forcing the new state at every step keeps the chain of pending thunks - and the Java
+\*  stack - short)
+FeedAll(mode, s, cs) ==
+  IF cs = <<>> THEN s
+  ELSE LET s1 == FeedChar(mode, s, cs[1]) IN
+       IF s1.pcr \in BOOLEAN THEN FeedAll(mode, s1, Tail(cs)) ELSE s1
 
 \* end of stream: an undecodable tail becomes U+FFFD, an unterminated last line is a line,
 \* an undispatched last block is still an event
@@ -304,6 +310,84 @@ CutsFor(s, maxFull, maxCuts, depth) ==
 
 \* a bare CR (not followed by LF) terminates a line somewhere in the stream
 HasBareCR(bytes) == \E i \in 1..Len(bytes) : bytes[i] = CR /\ (i = Len(bytes) \/ bytes[i + 1] # LF)
+
+----------------------------------------------------------------------------
+(* Long streams.  Stream LENGTH is a dimension with thresholds at the buffer sizes decoders like to use    *)
+(* (4 Ki, 64 Ki, 256 Ki, 1 Mi).  A long stream is described symbolically,                                   *)
+(*   L = [mode, pre, fill, m, post, reps] :  bytes = (pre \o fill^m \o post)^reps     (fill: one ASCII byte), *)
+(* and so is what a helper yields: text as run-length pairs <<code point, count>>, an item sequence as      *)
+(* [period, n] (item i is period[((i-1) % Len(period)) + 1], i \in 1..n).  Two laws lift the whole-stream    *)
+(* meaning of the short twin (fill^2, one repetition) to the long stream (checked by TLC for small m, reps  *)
+(* in MC_StreamLong): repetition - a unit that leaves the machine at rest contributes its own items, reps   *)
+(* times; stretching - a run of m fill characters stays one run of m characters in the items.               *)
+
+RECURSIVE RepSeq(_, _)
+RepSeq(s, n) == IF n = 0 THEN <<>> ELSE s \o RepSeq(s, n - 1)
+FillSeq(b, m) == Mat([i \in 1..m |-> b])
+UnitOf(L, m) == L.pre \o FillSeq(L.fill, m) \o L.post
+
+RECURSIVE RLEFrom(_, _, _)
+RLEFrom(s, i, acc) ==
+  IF i > Len(s) THEN acc
+  ELSE LET a == IF acc # <<>> /\ LastOf(acc)[1] = s[i]
+                THEN Append(FrontOf(acc), <<s[i], LastOf(acc)[2] + 1>>)
+                ELSE Append(acc, <<s[i], 1>>)
+       IN IF Len(a) > 0 THEN RLEFrom(s, i + 1, a) ELSE a
+RLE(s) == RLEFrom(s, 1, <<>>)
+\* a run of exactly `from` fill characters becomes a run of `to`
+Stretch(r, fill, from, to) == Mat([i \in 1..Len(r) |-> IF r[i][1] = fill /\ r[i][2] = from THEN <<fill, to>> ELSE r[i]])
+RECURSIVE UnRLE(_)
+UnRLE(r) == IF r = <<>> THEN <<>> ELSE FillSeq(r[1][1], r[1][2]) \o UnRLE(Tail(r))
+
+\* items of a helper in run-length form
+EncItem(dec, it, fill, from, to) ==
+  IF dec = "iter_sse"
+  THEN [data |-> Stretch(RLE(it.data), fill, from, to), event |-> Stretch(RLE(it.event), fill, from, to),
+        id |-> Stretch(RLE(it.id), fill, from, to), retry |-> it.retry]
+  ELSE Stretch(RLE(it), fill, from, to)
+MeaningOf(dec, mode, bytes) ==
+  CASE dec = "iter_sse" -> Events(bytes)
+    [] dec = "iter_sse_events_text" -> DataTexts(Events(bytes))
+    [] dec = "iter_ndjson" -> Records(bytes)
+    [] dec = "iter_bytes" -> <<bytes>>
+TwinM(L) == IF L.m = 0 THEN 0 ELSE 2
+\* the lifted expectation for helper `dec` on the long stream L, in [period, n] form
+ExpectedLong(dec, L) ==
+  IF dec = "iter_bytes"
+  THEN LET r == Stretch(RLE(UnitOf(L, TwinM(L))), L.fill, TwinM(L), L.m) IN
+       \* one item (the concatenation), itself a periodic sequence of runs
+       [period |-> r, n |-> L.reps * Len(r)]
+  ELSE LET its == MeaningOf(dec, L.mode, UnitOf(L, TwinM(L))) IN
+       [period |-> Mat([i \in 1..Len(its) |-> EncItem(dec, its[i], L.fill, TwinM(L), L.m)]), n |-> L.reps * Len(its)]
+\* the laws apply when a unit leaves the machine at rest, the fill byte occurs nowhere else and m is 0 or > 2
+Liftable(L) ==
+  LET a == AfterPrefix(L.mode, UnitOf(L, TwinM(L)), Len(UnitOf(L, TwinM(L)))) IN
+  /\ a.carry = <<>> /\ a.s.ln = <<>> /\ a.s.bl = <<>> /\ ~a.s.pcr
+  /\ L.m = 0 \/ L.m > 2
+  /\ L.fill < 128 /\ \A i \in 1..Len(L.pre) : L.pre[i] # L.fill
+  /\ \A i \in 1..Len(L.post) : L.post[i] # L.fill
+  /\ Len(L.pre) > 0 /\ (L.post = <<>> \/ LastOf(L.post) # L.pre[1])
+  /\ L.post # <<>> \/ LastOf(L.pre) # L.pre[1]
+
+PAt(e, i) == e.period[((i - 1) % Len(e.period)) + 1]
+MinInt(a, b) == IF a <= b THEN a ELSE b
+\* two periodic sequences denote the same sequence
+PSame(a, b) ==
+  /\ a.n = b.n
+  /\ a.n = 0 \/ ( /\ Len(a.period) > 0 /\ Len(b.period) > 0
+                   /\ \A i \in 1..MinInt(a.n, Len(a.period) * Len(b.period)) : PAt(a, i) = PAt(b, i) )
+PExpand(e) == Mat([i \in 1..e.n |-> PAt(e, i)])
+
+\* realistic chunkings of a long stream of `total` bytes (cuts as sorted sequences): fixed-size network chunks, two
+\* halves, a boundary just before / at / just after each buffer-size threshold (alone and followed by a second cut)
+FixedCuts(total, size) == Mat([k \in 1..((total - 1) \div size) |-> k * size])
+LongChunkings(total, sizes, thresholds) ==
+  {[label |-> "unsplit", size |-> 0, cuts |-> <<>>], [label |-> "halves", size |-> 0, cuts |-> <<total \div 2>>]}
+  \cup {[label |-> "fixed", size |-> z, cuts |-> FixedCuts(total, z)] : z \in {y \in sizes : y < total}}
+  \cup UNION {{[label |-> "before", size |-> t, cuts |-> <<t - 1>>], [label |-> "at", size |-> t, cuts |-> <<t>>],
+               [label |-> "after", size |-> t, cuts |-> <<t + 1>>],
+               [label |-> "after+half-of-rest", size |-> t, cuts |-> <<t + 1, t + 1 + (total - t) \div 2>>]}
+              : t \in {y \in thresholds : y + 2 < total}}
 
 \* sorted sequence of a set of ints
 RECURSIVE SortedSeq(_)
